@@ -400,8 +400,12 @@ def bool_ops(cx, rng, bt, bu, bd, be, t, u, d, e):
 def project_op(cx, rng, I, t, d, ts, dtype):
     """t.project(paxes, vaxes): view of t through another pattern of the same types"""
     import torch
-    ps2 = TP.gen_pattern(rng, ts, lambda: 0.0, 0.0, expand_p=0.0)
-    t2 = TP.realise(I, ps2, dtype)
+    ps2 = TP.gen_pattern(rng, ts, lambda: 0.0, 0.0, expand_p=0.0, structure_p=0.8)
+    if rng.random() < 0.5:
+        # the target pattern re-uses t's own PhysicalAxis objects (possibly nested and arranged differently)
+        t2, _ = TP.realise_sharing(I, rng, ps2, dtype, t, share_p=1.0)
+    else:
+        t2 = TP.realise(I, ps2, dtype)
     o = C.call(lambda: t.project(t2.paxes, t2.vaxes))
     cx.obs['op_instances'] += 1
     if not o['ok']:
